@@ -29,7 +29,8 @@ def run(tier, rep, work):
     if "EVENTS %d" % v["events"] not in p.stdout:
         raise C.Inconclusive("event count mismatch between driver and trace")
     rep.trace_run("meta", v, histories_nontrivial=C.distinct_nontrivial(trace, {"add"}, {"search"}))
-    rep.cov["exhaustive"] = True
+    rep.cov["exhaustive"] = not quick
+    rep.cov["exhaustive_scope"] = "all 1 728 document sets x the complete single-filter table in the thorough tier (1 in 8 document sets in the quick tier); filter trees and random histories are samples"
     rep.cov["rule"] = ("(A) TLC enumerates all 1728 document sets of the model and checks the operator laws; (B) 1 in %d of them (offset by seed) is loaded into a real RoaringMetadataIndex and the whole "
                        "single-filter table (6 numeric operators x 5 operands incl. absent ones, ranges incl. empty intervals, eq/ne/in/not_in over 'a', '' and an absent value, exists/not_exists on present and "
                        "absent fields, comparisons on a never-seen numeric field, each also under Not()) plus 6 random group expressions is evaluated through the three entry points "
